@@ -640,6 +640,145 @@ theorem binary_bridge {CT : CTab} {vl wl vr wr : Val} (a : Heap) (line : Nat) (o
     rw [applyBinary_clos_left _ _ _ _ _ _ hr.reifyM_eq]
     exact opOutF_clos a line op hl' hr s (spec_clos_left ..) (.inl ⟨_, _, _, hwl⟩)
 
+/-! ## `match`: patterns -/
+
+theorem toPatL_eq (p : LPat) : toPatL p = toPat p.line (Core.erasePat p) := by
+  cases p with
+  | lit l v => cases v <;> rfl
+  | bool l b => rfl
+  | range l incl lo hi => rfl
+  | dflt l => rfl
+
+/-- `RefCore.run_patMatches`, with the fact that a pattern on which the oracle commits is one source text denotes -/
+def PatOut' (v : Val) (p : CPat) (s : St) : Except Err Bool × St → Prop
+  | (.ok b, s') => s' = s ∧ Core.patTest v p = some b ∧ patOK p = true
+  | (.error (.rt _), _) => False
+  | (.error _, _) => True
+
+theorem run_patMatches' (ln : Nat) (v : Val) (p : CPat) (s : St) :
+    PatOut' v p s (run (patMatches v (toPat ln p)) s) := by
+  have h := run_patMatches ln v p s
+  by_cases hok : patOK p = true
+  · generalize run (patMatches v (toPat ln p)) s = o at h ⊢
+    rcases o with ⟨er | b, s1⟩
+    · cases er <;> first | exact h | exact True.intro
+    · exact ⟨h.1, h.2, hok⟩
+  · have hunc : run (patMatches v (toPat ln p)) s = (.error .unc, s) := by
+      cases p with
+      | dflt => simp [patOK] at hok
+      | bool b => simp [patOK] at hok
+      | lit w => cases w <;> first | (simp [patOK] at hok; done) | (cases v <;> rfl)
+      | range incl lo hi =>
+        cases lo <;> cases hi <;> first | (simp [patOK] at hok; done) | (cases v <;> rfl)
+    rw [hunc]; exact True.intro
+
+theorem patOK_lit {w : Val} (h : patOK (.lit w) = true) : isScalar w = true := by
+  cases w <;> first | rfl | (simp [patOK] at h)
+
+theorem patOK_range {incl : Bool} {lo hi : Val} (h : patOK (.range incl lo hi) = true) : isScalar lo = true ∧ isScalar hi = true := by
+  cases lo <;> cases hi <;> first | exact ⟨rfl, rfl⟩ | (simp [patOK] at h)
+
+theorem patTestH_eq (a : Heap) {v : Val} (hv : Core.Fn.view a v = v) : ∀ cp : CPat, patOK cp = true →
+    Core.Fn.patTestH a v cp = Core.patTest v cp
+  | .dflt, _ => rfl
+  | .bool b, _ => by
+    simp only [Core.Fn.patTestH, Core.Fn.cmpH, Core.patTest]
+    rw [hv, view_scalar a (show isScalar (.bool b) = true from rfl)]
+    cases execOperator .notEqual v (.bool b) <;> rfl
+  | .lit w, h => by
+    simp only [Core.Fn.patTestH, Core.Fn.cmpH, Core.patTest]
+    rw [hv, view_scalar a (patOK_lit h)]
+    cases execOperator .notEqual v w <;> rfl
+  | .range incl lo hi, h => by
+    simp only [Core.Fn.patTestH, Core.Fn.cmpH, Core.patTest]
+    rw [hv, view_scalar a (patOK_range h).1, view_scalar a (patOK_range h).2]
+    cases execOperator .greaterEq v lo with
+    | ok r1 =>
+      dsimp only
+      split
+      · rfl
+      · cases execOperator (if incl then Operator.greater else Operator.greaterEq) v hi <;> rfl
+    | err m => rfl
+    | panic m => rfl
+
+/-- what the oracle's `patMatches` may do, against the pattern test of Core.Fn -/
+def PatOutF (a : Heap) (w : Val) (p : CPat) (s : St) : Except Err Bool × St → Prop
+  | (.ok b, s') => s' = s ∧ Core.Fn.patTestH a w p = some b
+  | (.error (.rt _), _) => False
+  | (.error _, _) => True
+
+theorem pat_bridge_clos (a : Heap) (s : St) (f f' : FnDef) (fr fr' : List Val) (id id' : Nat) (p : LPat) :
+    PatOutF a (.clos f' fr' id') (Core.erasePat p) s (run (patMatches (.clos f fr id) (toPatL p)) s) := by
+  have hv : Core.Fn.view a (.clos f' fr' id') = .clos f' fr' id' := rfl
+  cases p with
+  | dflt l => exact ⟨rfl, rfl⟩
+  | bool l b =>
+    refine ⟨rfl, ?_⟩
+    simp [Core.erasePat, Core.Fn.patTestH, Core.Fn.cmpH, hv, view_scalar a (show isScalar (.bool b) = true from rfl),
+      execOperator, Val.eq, Val.isFalsey]
+  | lit l w =>
+    cases w <;> first
+      | exact True.intro
+      | (refine ⟨rfl, ?_⟩
+         simp [Core.erasePat, Core.Fn.patTestH, Core.Fn.cmpH, hv, Core.Fn.view, reify, execOperator, Val.eq, Val.isFalsey])
+  | range l incl lo hi => exact True.intro
+
+theorem pat_bridge {CT : CTab} {v w : Val} (a : Heap) (s : St) (hvw : VR CT v w) (p : LPat) :
+    PatOutF a w (Core.erasePat p) s (run (patMatches v (toPatL p)) s) := by
+  rcases hvw with ⟨hs, rfl⟩ | ⟨k, fd, hid, rfl, rfl, -⟩
+  · have h := run_patMatches' p.line w (Core.erasePat p) s
+    rw [← toPatL_eq] at h
+    generalize run (patMatches w (toPatL p)) s = o at h ⊢
+    rcases o with ⟨er | b, s1⟩
+    · cases er <;> first | exact h | exact True.intro
+    · exact ⟨h.1, by rw [patTestH_eq a (view_scalar a hs) _ h.2.2]; exact h.2.1⟩
+  · exact pat_bridge_clos a s _ _ _ _ _ _ p
+
+def HitOutF (hit0 : Bool) (a : Heap) (w : Val) (cps : List CPat) (s : St) : Except Err Bool × St → Prop
+  | (.ok b, s') => s' = s ∧ (if hit0 then b = true else Core.Fn.patsTestH a w cps = some b)
+  | (.error (.rt _), _) => False
+  | (.error _, _) => True
+
+theorem run_hitLoopF {CT : CTab} {v w : Val} (a : Heap) (hvw : VR CT v w) (s : St) :
+    ∀ (ps : List LPat) (hit0 : Bool), HitOutF hit0 a w (ps.map Core.erasePat) s (run (hitLoop hit0 v (ps.map toPatL)) s)
+  | [], hit0 => by
+    simp only [List.map_nil]
+    rw [hitLoop_nil]
+    cases hit0 <;> exact ⟨rfl, rfl⟩
+  | p :: ps, hit0 => by
+    simp only [List.map_cons]
+    rw [hitLoop_cons, run_bind]
+    cases hit0 with
+    | true =>
+      have := run_hitLoopF a hvw s ps true
+      simp only [if_true, run_pure]
+      revert this
+      rcases run (hitLoop true v (ps.map toPatL)) s with ⟨er | b', s2⟩
+      · exact id
+      · rintro ⟨rfl, hb⟩; exact ⟨rfl, hb⟩
+    | false =>
+      have hp := pat_bridge a s hvw p
+      revert hp
+      simp only [Bool.false_eq_true, if_false]
+      rcases run (patMatches v (toPatL p)) s with ⟨er | b, s1⟩
+      · cases er <;> intro h <;> first | exact h.elim | exact True.intro
+      · rintro ⟨rfl, hpt⟩
+        have := run_hitLoopF a hvw s1 ps b
+        revert this
+        show HitOutF b a w (ps.map Core.erasePat) s1 (run (hitLoop b v (ps.map toPatL)) s1) →
+          HitOutF false a w ((p :: ps).map Core.erasePat) s1 (run (hitLoop b v (ps.map toPatL)) s1)
+        rcases run (hitLoop b v (ps.map toPatL)) s1 with ⟨er | b', s2⟩
+        · cases er <;> exact id
+        · rintro ⟨rfl, hb⟩
+          refine ⟨rfl, ?_⟩
+          cases b with
+          | true =>
+            simp only [if_true] at hb
+            simp [Core.Fn.patsTestH, hpt, hb]
+          | false =>
+            simp only [Bool.false_eq_true, if_false] at hb ⊢
+            simp [Core.Fn.patsTestH, hpt, hb]
+
 /-! ## fuel-indexed evaluations of Core.Fn against runs of the oracle -/
 
 abbrev FM (α : Type) := Nat → Option α
@@ -711,6 +850,16 @@ theorem Post.mono {α β : Type} {Q Q' : α → β → St → Prop} {ev : FM β}
 
 theorem Post.ok {α β : Type} {Q : α → β → St → Prop} {ev : FM β} {a : α} {s : St} (k : Nat) (b : β)
     (hb : ev k = some b) (hq : Q a b s) : Post Q ev (.ok a, s) := ⟨k, b, hb, hq⟩
+
+theorem Post.bind_hit {α β : Type} {Q : α → β → St → Prop} {ev : FM β} {hit0 : Bool} {a : Heap} {w : Val} {cps : List CPat} {s : St}
+    {m : M Bool} {K : Bool → M α} (h : HitOutF hit0 a w cps s (run m s))
+    (hk : ∀ b, (if hit0 then b = true else Core.Fn.patsTestH a w cps = some b) → Post Q ev (run (K b) s)) :
+    Post Q ev (run (m >>= K) s) := by
+  rw [run_bind]
+  revert h
+  rcases run m s with ⟨er | b, s1⟩
+  · cases er <;> intro h <;> first | exact h.elim | exact True.intro
+  · rintro ⟨rfl, hb⟩; exact hk b hb
 
 /-! ## Core.Fn's evaluators as binds -/
 
@@ -820,6 +969,34 @@ theorem fE_ite (k : Nat) (cx : Option (FnDef × Nat)) (σ : Sto) (l : Nat) (c t 
   cases Core.Fn.evalE Φ k cx σ c with
   | none => rfl
   | some p => rfl
+
+theorem fArms_zero (cx : Option (FnDef × Nat)) (σ : Sto) (w : Val) (e : FArms) : Core.Fn.evalArms Φ 0 cx σ w e = none := by
+  simp [Core.Fn.evalArms]
+
+theorem mono_Arms (cx : Option (FnDef × Nat)) (σ : Sto) (w : Val) (e : FArms) : FMono (fun k => Core.Fn.evalArms Φ k cx σ w e) :=
+  fun k k' r hle h => (mono_all Φ k).Arms cx σ w e r k' hle h
+
+theorem fE_match (k : Nat) (cx : Option (FnDef × Nat)) (σ : Sto) (l : Nat) (sc : FExpr) (arms : FArms) :
+    Core.Fn.evalE Φ (k+1) cx σ (.matchE l sc arms) =
+      (Core.Fn.evalE Φ k cx σ sc).bind fun p => Core.Fn.evalArms Φ k cx p.2 p.1 arms := by
+  simp only [Core.Fn.evalE]
+  cases Core.Fn.evalE Φ k cx σ sc with
+  | none => rfl
+  | some p => rfl
+
+theorem fArms_last (k : Nat) (cx : Option (FnDef × Nat)) (σ : Sto) (w : Val) (la lp : Nat) (d : FExpr) :
+    Core.Fn.evalArms Φ (k+1) cx σ w (.last la lp d) = Core.Fn.evalE Φ k cx σ d := by
+  simp only [Core.Fn.evalArms]
+
+theorem fArms_cons_true (k : Nat) (cx : Option (FnDef × Nat)) (σ : Sto) (w : Val) (la : Nat) (pats : List LPat) (body : FExpr) (rest : FArms)
+    (h : Core.Fn.patsTestH σ.a w (pats.map Core.erasePat) = some true) :
+    Core.Fn.evalArms Φ (k+1) cx σ w (.cons la pats body rest) = Core.Fn.evalE Φ k cx σ body := by
+  simp only [Core.Fn.evalArms, h]
+
+theorem fArms_cons_false (k : Nat) (cx : Option (FnDef × Nat)) (σ : Sto) (w : Val) (la : Nat) (pats : List LPat) (body : FExpr) (rest : FArms)
+    (h : Core.Fn.patsTestH σ.a w (pats.map Core.erasePat) = some false) :
+    Core.Fn.evalArms Φ (k+1) cx σ w (.cons la pats body rest) = Core.Fn.evalArms Φ k cx σ w rest := by
+  simp only [Core.Fn.evalArms, h]
 
 theorem fE_gset (k : Nat) (cx : Option (FnDef × Nat)) (σ : Sto) (l i : Nat) (e : FExpr) :
     Core.Fn.evalE Φ (k+1) cx σ (.gset l i e) =
@@ -1169,11 +1346,15 @@ noncomputable def okE (N : Names) (Φ : FnDef → Option FDecl) (c : Ctx) (gh nl
   | .curr _ => c.self != ""
   | .call _ f args => okE N Φ c gh nl vis f && okArgs N Φ c gh nl vis args
   | .fget _ j => decide (j < c.frees.length)
+  | .matchE _ s arms => okE N Φ c gh nl vis s && okArms N Φ c gh nl vis arms
   | .mkclos l code lines np nl' body caps =>
     caps.all (okCap c vis) && decide (np ≤ nl') &&
     decide (Φ (mkFd code lines ⟨np, nl', body, l⟩) = some ⟨np, nl', body, l⟩) &&
     okP N Φ ⟨c.depth + 1, "", caps.map (capName N c)⟩ gh nl' (paramVis np) body && lastOK body
   | _ => false
+noncomputable def okArms (N : Names) (Φ : FnDef → Option FDecl) (c : Ctx) (gh nl : Nat) (vis : List Nat) : FArms → Bool
+  | .last _ _ d => okE N Φ c gh nl vis d
+  | .cons _ _ body rest => okE N Φ c gh nl vis body && okArms N Φ c gh nl vis rest
 noncomputable def okArgs (N : Names) (Φ : FnDef → Option FDecl) (c : Ctx) (gh nl : Nat) (vis : List Nat) : FArgs → Bool
   | .nil => true
   | .cons a rest => okE N Φ c gh nl vis a && okArgs N Φ c gh nl vis rest
@@ -1182,7 +1363,8 @@ noncomputable def okS (N : Names) (Φ : FnDef → Option FDecl) (c : Ctx) (gh nl
   | .letL _ i e => decide (0 < c.depth) && !vis.contains i && decide (i < nl) && okE N Φ c gh nl vis e
   | .expr _ e => okE N Φ c gh nl vis e
   | .block _ body => okP N Φ c gh nl vis body
-  | .whileS .. | .loopS .. => false
+  | .whileS _ _ cnd body => okE N Φ c gh nl vis cnd && okP N Φ c gh nl vis body
+  | .loopS _ _ body => okP N Φ c gh nl vis body
   | .breakS .. | .continueS .. => true
   | .ifS _ _ cnd t e => okE N Φ c gh nl vis cnd && okP N Φ c gh nl vis t && okP N Φ c gh nl vis e
   | .ret _ e => decide (0 < c.depth) && okE N Φ c gh nl vis e
@@ -1434,6 +1616,10 @@ structure AllOK (fuel : Nat) : Prop where
   E : ∀ (A : Act) n CT V vals st σ e, Inv N Φ CT n st σ → Frame N A CT V vals σ → A.gh ≤ n →
     okE N Φ A.c A.gh A.nl V.flatten e = true →
     Post (EQ N Φ A n CT σ V) (fun k => Core.Fn.evalE Φ k A.cx σ e) (run (Ref.evalE fuel (envOf N A V vals) (toAstF N A.c e)) st)
+  Arms : ∀ (A : Act) n CT V vals st σ v w arms, Inv N Φ CT n st σ → Frame N A CT V vals σ → A.gh ≤ n →
+    okArms N Φ A.c A.gh A.nl V.flatten arms = true → VR CT v w →
+    Post (EQ N Φ A n CT σ V) (fun k => Core.Fn.evalArms Φ k A.cx σ w arms)
+      (run (Ref.evalArms fuel (envOf N A V vals) v (toArmsF N A.c arms)) st)
   Args : ∀ (A : Act) n CT V vals st σ e, Inv N Φ CT n st σ → Frame N A CT V vals σ → A.gh ≤ n →
     okArgs N Φ A.c A.gh A.nl V.flatten e = true →
     Post (AQ N Φ A n CT σ V) (fun k => Core.Fn.evalArgs Φ k A.cx σ e) (run (Ref.evalArgs fuel (envOf N A V vals) (toArgsF N A.c e)) st)
@@ -1446,18 +1632,24 @@ structure AllOK (fuel : Nat) : Prop where
   B : ∀ (A : Act) n CT V vals st σ ss l, Inv N Φ CT n st σ → Frame N A CT V vals σ → A.gh ≤ n →
     okP N Φ A.c A.gh A.nl V.flatten ss = true →
     Post (BQ N Φ A n CT σ V ss) (fun k => Core.Fn.evalP Φ k A.cx σ ss) (run (Ref.evalBlock fuel (envOf N A V vals) (.mk l (toStmtsF N A.c ss))) st)
+  L : ∀ (A : Act) n CT V vals st σ l lbl cond body, Inv N Φ CT n st σ → Frame N A CT V vals σ → A.gh ≤ n →
+    condOKF N Φ A.c A.gh A.nl V.flatten cond = true → okP N Φ A.c A.gh A.nl V.flatten body = true →
+    Post (BQ N Φ A n CT σ V [mkLoopF l lbl cond body]) (fun k => Core.Fn.evalS Φ k A.cx σ (mkLoopF l lbl cond body))
+      (run (Ref.evalLoop fuel (envOf N A V vals) lbl (cond.map (toAstF N A.c)) (.mk l (toStmtsF N A.c body))) st)
   C : ∀ n CT st σ l vf wf vargs wargs, Inv N Φ CT n st σ → VR CT vf wf → VRs CT vargs wargs →
     Post (CQ N Φ n CT σ) (fun k => callF Φ k wf wargs σ) (run (Ref.callValue fuel l vf vargs) st)
 
 theorem callValue_zero (l : Nat) (vf : Val) (vargs : List Val) : callValue 0 l vf vargs = throw .fuel := by rw [callValue]
 
 theorem all_zero : AllOK N Φ 0 := by
-  refine ⟨?_, ?_, ?_, ?_, ?_, ?_⟩
+  refine ⟨?_, ?_, ?_, ?_, ?_, ?_, ?_, ?_⟩
   · intros; rw [evalE_zero]; exact True.intro
+  · intros; rw [evalArms_zero]; exact True.intro
   · intros; rw [evalArgs_zero]; exact True.intro
   · intros; rw [evalStmt_zero]; exact True.intro
   · intros; rw [evalStmts_zero]; exact True.intro
   · intros; rw [evalBlock_zero]; exact True.intro
+  · intros; rw [evalLoop_zero]; exact True.intro
   · intros; rw [callValue_zero]; exact True.intro
 
 variable {N Φ} (hN : NamesOK N)
@@ -1822,6 +2014,18 @@ theorem expr_succ (f : Nat) (ih : ∀ f', f' ≤ f → AllOK N Φ f') :
     rw [toAstF, evalE_call]
     refine Post.shift (fE_zero _ _ _ _) (fun k => fE_call Φ k A.cx σ l fn args) ?_
     exact callCore_ok hf A n CT V vals st σ fn args l poisonK (fun env r hr => hr) hI hF hgh hok.1 hok.2
+  | matchE l sc arms =>
+    simp only [okE, Bool.and_eq_true] at hok
+    rw [toAstF, evalE_match]
+    refine Post.shift (fE_zero _ _ _ _) (fun k => fE_match Φ k A.cx σ l sc arms) ?_
+    unfold bindR
+    refine Post.bind (mono_E _ _ _ _) (fun p => mono_Arms _ _ _ _ _) (hf.E A n CT V vals st σ sc hI hF hgh hok.1) ?_
+    rintro r ⟨w, σ1⟩ s1 ⟨v, vals1, CT1, rfl, hv, hn1⟩
+    dsimp only
+    rw [hv.reifyM_eq, pure_bind]
+    refine Post.mono ?_ (hf.Arms A n CT1 V vals1 s1 σ1 v w arms hn1.inv hn1.frame hgh hok.2 hv)
+    rintro r y s ⟨v2, vals2, CT2, rfl, hv2, hn2⟩
+    exact ⟨v2, vals2, CT2, rfl, hv2, hn1.trans hn2⟩
   | fget l j =>
     simp only [okE, decide_eq_true_eq] at hok
     have hj : A.c.frees[j]? = some (A.c.frees.getD j "") := by
@@ -1856,6 +2060,39 @@ theorem expr_succ (f : Nat) (ih : ∀ f', f' ≤ f → AllOK N Φ f') :
       ⟨_, vals, _, rfl, .inr ⟨st.clos.length, _, _, rfl, rfl, by rw [hI.closLen]; simp⟩,
        ⟨hp, List.prefix_append _ _, hI.pushClos _ _ ws hentry, hfr⟩⟩
   | _ => simp [okE] at hok
+
+theorem arms_succ (f : Nat) (ih : ∀ f', f' ≤ f → AllOK N Φ f') :
+    ∀ (A : Act) n CT V vals st σ v w arms, Inv N Φ CT n st σ → Frame N A CT V vals σ → A.gh ≤ n →
+    okArms N Φ A.c A.gh A.nl V.flatten arms = true → VR CT v w →
+    Post (EQ N Φ A n CT σ V) (fun k => Core.Fn.evalArms Φ k A.cx σ w arms)
+      (run (Ref.evalArms (f+1) (envOf N A V vals) v (toArmsF N A.c arms)) st) := by
+  intro A n CT V vals st σ v w arms hI hF hgh hok hvw
+  cases arms with
+  | last la lp d =>
+    simp only [okArms] at hok
+    rw [toArmsF, evalArms_cons]
+    refine Post.shift (fArms_zero _ _ _ _ _) (fun k => fArms_last Φ k A.cx σ w la lp d) ?_
+    refine Post.bind_hit (run_hitLoopF σ.a hvw st [.dflt lp] false) ?_
+    intro b hb
+    have hb' : b = true := by simpa [Core.Fn.patsTestH, Core.Fn.patTestH, Core.erasePat] using hb.symm
+    subst hb'
+    simp only [if_true]
+    exact branch_expr_ok ih A n CT V vals st σ d la hI hF hgh hok
+  | cons la pats body rest =>
+    simp only [okArms, Bool.and_eq_true] at hok
+    rw [toArmsF, evalArms_cons]
+    refine Post.bind_hit (run_hitLoopF σ.a hvw st pats false) ?_
+    intro b hb
+    simp only [Bool.false_eq_true, if_false] at hb
+    cases b with
+    | true =>
+      simp only [if_true]
+      refine Post.shift (fArms_zero _ _ _ _ _) (fun k => fArms_cons_true Φ k A.cx σ w la pats body rest hb) ?_
+      exact branch_expr_ok ih A n CT V vals st σ body la hI hF hgh hok.1
+    | false =>
+      simp only [Bool.false_eq_true, if_false]
+      refine Post.shift (fArms_zero _ _ _ _ _) (fun k => fArms_cons_false Φ k A.cx σ w la pats body rest hb) ?_
+      exact (ih f (Nat.le_refl f)).Arms A n CT V vals st σ v w rest hI hF hgh hok.2 hvw
 
 include hN in
 theorem args_succ (f : Nat) (hf : AllOK N Φ f) :
@@ -1943,8 +2180,18 @@ theorem stmt_succ (f : Nat) (ih : ∀ f', f' ≤ f → AllOK N Φ f') :
   have hf := ih f (Nat.le_refl f)
   cases s with
   | letG l i e => simp [okS] at hok
-  | whileS l lbl c body => simp [okS] at hok
-  | loopS l lbl body => simp [okS] at hok
+  | whileS l lbl c body =>
+    simp only [okS, Bool.and_eq_true] at hok
+    rw [toStmtF, evalStmt_while]
+    refine Post.mono ?_ (hf.L A n CT V vals st σ l lbl (some c) body hI hF hgh hok.1 hok.2)
+    rintro r y s ⟨vals', CT', h1, h2, h3, h4⟩
+    exact SQ.same h1 h2 h3 h4 rfl
+  | loopS l lbl body =>
+    simp only [okS] at hok
+    rw [toStmtF, evalStmt_loop]
+    refine Post.mono ?_ (hf.L A n CT V vals st σ l lbl none body hI hF hgh rfl hok)
+    rintro r y s ⟨vals', CT', h1, h2, h3, h4⟩
+    exact SQ.same h1 h2 h3 h4 rfl
   | letL l i e =>
     simp only [okS, Bool.and_eq_true, decide_eq_true_eq, Bool.not_eq_true', List.contains_eq_mem, decide_eq_false_iff_not] at hok
     obtain ⟨⟨⟨hd, hnotin⟩, hinl⟩, hoke⟩ := hok
@@ -2147,6 +2394,111 @@ theorem block_succ (f : Nat) (hf : AllOK N Φ f) :
   subst henv'
   exact Post.ok k (σ1, fl', bv) hk ⟨vals1, CT1, rfl, hfr,
     ⟨hn1.ext, hn1.hext, hn1.inv, Frame.pop (V0 := V0') hn1.frame (fun hd => (hF.infn hd).2.2)⟩, fun h => (hnorm h).2⟩
+
+theorem mono_loopSK (cx : Option (FnDef × Nat)) (lbl : Option String) (loop : FStmt) (q : Sto × FFlow × Val) :
+    FMono (fun k => loopSK Φ k cx lbl loop q) := by
+  cases h : Core.Fn.floopAct lbl q.2.1 <;> simp only [loopSK, h]
+  · exact mono_S _ _ _ _
+  · exact FMono.const _
+  · exact FMono.const _
+
+theorem mkLoopF_normalOK (l : Nat) (lbl : Option String) (cond : Option FExpr) (body : List FStmt) :
+    NormalOK [mkLoopF l lbl cond body] .null := by
+  cases cond <;> exact ⟨rfl, fun _ => rfl⟩
+
+/-- the body of a loop, then what the loop does with the flow -/
+theorem loop_body_ok {f : Nat} (hf : AllOK N Φ f) (A : Act) (n : Nat) (CT : CTab) (V : List (List Nat)) (vals : Nat → Val) (st : St) (σ : Sto)
+    (l : Nat) (lbl : Option String) (cond : Option FExpr) (body : List FStmt)
+    (hI : Inv N Φ CT n st σ) (hF : Frame N A CT V vals σ) (hgh : A.gh ≤ n)
+    (hc : condOKF N Φ A.c A.gh A.nl V.flatten cond = true) (hb : okP N Φ A.c A.gh A.nl V.flatten body = true) :
+    Post (BQ N Φ A n CT σ V [mkLoopF l lbl cond body])
+      (fun k => (Core.Fn.evalP Φ k A.cx σ body).bind (loopSK Φ k A.cx lbl (mkLoopF l lbl cond body)))
+      (run (evalBlock f (envOf N A V vals) (.mk l (toStmtsF N A.c body)) >>=
+        loopBodyK f lbl (cond.map (toAstF N A.c)) (.mk l (toStmtsF N A.c body))) st) := by
+  refine Post.bind (mono_P _ _ _ _) (fun q => mono_loopSK _ _ _ q) (hf.B A n CT V vals st σ body l hI hF hgh hb) ?_
+  rintro ⟨fl, v, env1⟩ ⟨σ1, fl', bv⟩ s1 ⟨vals1, CT1, henv, hfr, hn1, -⟩
+  have henv' : env1 = envOf N A V vals1 := henv
+  subst henv'
+  have hN0 := mkLoopF_normalOK l lbl cond body
+  have again : Core.Fn.floopAct lbl fl' = .again →
+      Post (BQ N Φ A n CT σ V [mkLoopF l lbl cond body]) (fun k => loopSK Φ k A.cx lbl (mkLoopF l lbl cond body) (σ1, fl', bv))
+        (run (evalLoop f (envOf N A V vals1) lbl (cond.map (toAstF N A.c)) (.mk l (toStmtsF N A.c body))) s1) := by
+    intro hact
+    refine Post.congr (ev' := fun k => Core.Fn.evalS Φ k A.cx σ1 (mkLoopF l lbl cond body)) (fun k => by simp [loopSK, hact]) ?_
+    refine Post.mono ?_ (hf.L A n CT1 V vals1 s1 σ1 l lbl cond body hn1.inv hn1.frame hgh hc hb)
+    rintro r y s ⟨vals2, CT2, h1, h2, hn2, h4⟩
+    exact ⟨vals2, CT2, h1, h2, hn1.trans hn2, h4⟩
+  cases fl' with
+  | normal =>
+    cases fl <;> first | exact hfr.elim | skip
+    exact again rfl
+  | brk lb =>
+    cases fl <;> first | exact hfr.elim | skip
+    have hlb : _ = lb := hfr
+    subst hlb
+    show Post _ _ (run (if labelMatches lbl _ then _ else _) s1)
+    rw [labelMatches_eq]
+    cases ht : Core.targets lbl _ with
+    | true =>
+      simp only [if_true]
+      exact Post.ok 0 (σ1, .normal, .null) (by simp [loopSK, Core.Fn.floopAct, ht])
+        ⟨vals1, CT1, rfl, True.intro, hn1, fun _ => ⟨VR.scalar rfl, hN0⟩⟩
+    | false =>
+      simp only [Bool.false_eq_true, if_false]
+      exact Post.ok 0 (σ1, .brk _, .null) (by simp [loopSK, Core.Fn.floopAct, ht])
+        ⟨vals1, CT1, rfl, rfl, hn1, fun h => by cases h⟩
+  | cont lb =>
+    cases fl <;> first | exact hfr.elim | skip
+    have hlb : _ = lb := hfr
+    subst hlb
+    show Post _ _ (run (if labelMatches lbl _ then _ else _) s1)
+    rw [labelMatches_eq]
+    cases ht : Core.targets lbl _ with
+    | true =>
+      simp only [if_true]
+      exact again (by simp [Core.Fn.floopAct, ht])
+    | false =>
+      simp only [Bool.false_eq_true, if_false]
+      exact Post.ok 0 (σ1, .cont _, .null) (by simp [loopSK, Core.Fn.floopAct, ht])
+        ⟨vals1, CT1, rfl, rfl, hn1, fun h => by cases h⟩
+  | ret w =>
+    cases fl <;> first | exact hfr.elim | skip
+    exact Post.ok 0 (σ1, .ret w, .null) (by simp [loopSK, Core.Fn.floopAct])
+      ⟨vals1, CT1, rfl, hfr, hn1, fun h => by cases h⟩
+
+theorem loop_succ (f : Nat) (hf : AllOK N Φ f) :
+    ∀ (A : Act) n CT V vals st σ l lbl cond body, Inv N Φ CT n st σ → Frame N A CT V vals σ → A.gh ≤ n →
+    condOKF N Φ A.c A.gh A.nl V.flatten cond = true → okP N Φ A.c A.gh A.nl V.flatten body = true →
+    Post (BQ N Φ A n CT σ V [mkLoopF l lbl cond body]) (fun k => Core.Fn.evalS Φ k A.cx σ (mkLoopF l lbl cond body))
+      (run (Ref.evalLoop (f+1) (envOf N A V vals) lbl (cond.map (toAstF N A.c)) (.mk l (toStmtsF N A.c body))) st) := by
+  intro A n CT V vals st σ l lbl cond body hI hF hgh hc hb
+  rw [evalLoop_succ]
+  cases cond with
+  | none =>
+    simp only [Option.map_none, loopCond, pure_bind]
+    refine Post.shift (fS_zero _ _ _ _) (fun k => fS_loop Φ k A.cx σ l lbl body) ?_
+    exact loop_body_ok hf A n CT V vals st σ l lbl none body hI hF hgh rfl hb
+  | some c =>
+    simp only [Option.map_some, loopCond, bind_assoc]
+    refine Post.shift (fS_zero _ _ _ _) (fun k => fS_while Φ k A.cx σ l lbl c body) ?_
+    refine Post.bind (mono_E _ _ _ _)
+      (fun p => FMono.ite (FMono.const _) (FMono.bind (mono_P _ _ _ _) (fun q => mono_loopSK _ _ _ q)))
+      (hf.E A n CT V vals st σ c hI hF hgh hc) ?_
+    rintro r ⟨wc, σ1⟩ s1 ⟨vc, vals1, CT1, rfl, hvc, hn1⟩
+    simp only [condK, bind_assoc, pure_bind]
+    rw [hvc.truthy_eq σ1.a, pure_bind]
+    cases hfal : Core.Fn.falseyH σ1.a wc with
+    | true =>
+      simp only [Bool.not_true]
+      exact Post.ok 0 (σ1, .normal, .null) (by simp [hfal])
+        ⟨vals1, CT1, rfl, True.intro, hn1, fun _ => ⟨VR.scalar rfl, mkLoopF_normalOK l lbl (some c) body⟩⟩
+    | false =>
+      simp only [Bool.not_false]
+      refine Post.congr (ev' := fun k => (Core.Fn.evalP Φ k A.cx σ1 body).bind (loopSK Φ k A.cx lbl (mkLoopF l lbl (some c) body)))
+        (fun k => by simp [hfal, mkLoopF]) ?_
+      refine Post.mono ?_ (loop_body_ok hf A n CT1 V vals1 s1 σ1 l lbl (some c) body hn1.inv hn1.frame hgh hc hb)
+      rintro r y s ⟨vals2, CT2, h1, h2, hn2, h4⟩
+      exact ⟨vals2, CT2, h1, h2, hn1.trans hn2, h4⟩
 
 end Main
 
@@ -2370,7 +2722,7 @@ theorem all_ok : ∀ fuel, AllOK N Φ fuel := by
     | succ f =>
       have ihf := ih f (Nat.lt_succ_self f)
       have ih' : ∀ f', f' ≤ f → AllOK N Φ f' := fun f' h => ih f' (Nat.lt_succ_of_le h)
-      exact ⟨expr_succ hN f ih', args_succ hN f ihf, stmt_succ hN f ih', stmts_succ f ihf, block_succ f ihf, call_succ hN f ihf⟩
+      exact ⟨expr_succ hN f ih', arms_succ f ih', args_succ hN f ihf, stmt_succ hN f ih', stmts_succ f ihf, block_succ f ihf, loop_succ f ihf, call_succ hN f ihf⟩
 
 /-! ## the theorems (Stage A: first-order functions) -/
 
@@ -2919,6 +3271,233 @@ example : ∃ k σ', callF factΦ k (.clos factFd [] 0) [.int 3] factSto = some 
 def factTop : FTop := .fnDef 1 0 (Core.Fn.fnTop 0 factD).1 (Core.Fn.fnTop 0 factD).2 factD
 example : (Core.Fn.ofTops 40 ⟨0, [], []⟩ 0 (toTops stdNames [factTop])).map (·.1) = some [factTop] := by rfl
 
+/-! ### closures: `fn mk(a) { return fn(b) { a + b }; }` called twice with different `a` -/
+
+def addBody : List FStmt := [.expr 1 (.bin 1 .add (.fget 1 0) (.lget 1 0))]
+def addD : FDecl := ⟨1, 1, addBody, 1⟩
+/-- `fn(b) { a + b }` inside `mk`: it captures the parameter `a` (slot 0 of `mk`) by value -/
+def addLit : FExpr := .mkclos 1 (Core.Fn.fnTop 0 addD).1 (Core.Fn.fnTop 0 addD).2 1 1 addBody [.loc 0]
+def mkD : FDecl := ⟨1, 1, [.ret 1 addLit], 1⟩
+
+/-- ```
+fn mk(a) { return fn(b) { a + b }; }
+let f = mk(1);
+let g = mk(2);
+let x = f(10);
+let y = g(10);
+``` -/
+def mkT : List FTop := [
+  .fnDef 1 0 (Core.Fn.fnTop 0 mkD).1 (Core.Fn.fnTop 0 mkD).2 mkD,
+  .stmt (.letG 1 1 (.call 1 (.gget 1 0) (.cons (.lit 1 (.int 1)) .nil))),
+  .stmt (.letG 1 2 (.call 1 (.gget 1 0) (.cons (.lit 1 (.int 2)) .nil))),
+  .stmt (.letG 1 3 (.call 1 (.gget 1 1) (.cons (.lit 1 (.int 10)) .nil))),
+  .stmt (.letG 1 4 (.call 1 (.gget 1 2) (.cons (.lit 1 (.int 10)) .nil)))]
+
+theorem mkT_phi_mk : Core.Fn.phiT mkT (mkFd (Core.Fn.fnTop 0 mkD).1 (Core.Fn.fnTop 0 mkD).2 mkD) = some mkD := by rfl
+theorem mkT_phi_add : Core.Fn.phiT mkT (mkFd (Core.Fn.fnTop 0 addD).1 (Core.Fn.fnTop 0 addD).2 addD) = some addD := by rfl
+
+theorem mkT_ok' (Φ : FnDef → Option FDecl)
+    (h1 : Φ (mkFd (Core.Fn.fnTop 0 mkD).1 (Core.Fn.fnTop 0 mkD).2 mkD) = some mkD)
+    (h2 : Φ (mkFd (Core.Fn.fnTop 0 addD).1 (Core.Fn.fnTop 0 addD).2 addD) = some addD) :
+    okTop stdNames Φ 5 0 mkT = true := by
+  simp only [mkT, mkD, addLit, addD, addBody] at h1 h2 ⊢
+  simp [okTop, okP, okS, okE, okArgs, okCap, lastOK, paramVis, fnCtx, topCtx, visAfter, capName, h1, h2]
+
+theorem mkT_ok : okTop stdNames (Core.Fn.phiT mkT) 5 0 mkT = true := mkT_ok' _ mkT_phi_mk mkT_phi_add
+
+def cellInts (o : Except Err (Flow × Val × Env) × St) : Option (List (Option Int)) :=
+  match o with
+  | (.ok (.normal, _, _), st) => some (st.cells.map intOf)
+  | _ => none
+
+theorem of_cellInts {o : Except Err (Flow × Val × Env) × St} {cs : List (Option Int)} (h : cellInts o = some cs) :
+    ∃ v env' st', o = (.ok (.normal, v, env'), st') ∧ st'.cells.map intOf = cs := by
+  rcases o with ⟨er | ⟨fl, v, env'⟩, st'⟩
+  · simp [cellInts] at h
+  · cases fl <;> first | (simp [cellInts] at h; done) | exact ⟨v, env', st', rfl, by simpa [cellInts] using h⟩
+
+/-- the oracle runs the program to its normal end: `x = 11`, `y = 12` (the first three cells hold closures) -/
+theorem mkT_ref : cellInts (run (evalStmts 60 [[]] (toTops stdNames mkT) .null) {}) = some [none, none, none, some 11, some 12] := by
+  decide +kernel
+
+theorem int_of_intOf {v : Val} {i : Int} (h : intOf v = some i) : ∃ x : Int64, v = .int x ∧ x.toInt = i := by
+  cases v <;> simp [intOf] at h
+  exact ⟨_, rfl, h⟩
+
+/-- … hence Core.Fn's `evalT` ends too, with `x` and `y` holding integers with the same values (the two closures
+created by `mk(1)` and `mk(2)` captured different values of `a`), and so does the compiled program on the machine -/
+example : ∃ (g' : List Val) (h' : List (List Val)) (a' : Heap) (x y : Int64),
+    Core.Fn.FSteps (Core.Fn.constsT mkT) (Core.Fn.codeT mkT)
+      ⟨⟨Core.Fn.compileT 0 0 mkT, ⟨[], [], 0, 0, 0⟩, 0, 0, 0⟩, [], List.replicate 5 .null, [[]], {}, []⟩
+      ⟨⟨Core.Fn.compileT 0 0 mkT, ⟨[], [], 0, 0, 0⟩, 0, Core.bytes (Core.Fn.compileT 0 0 mkT), 0⟩, [], g', h', a', []⟩ ∧
+    g'[3]? = some (.int x) ∧ x.toInt = 11 ∧ g'[4]? = some (.int y) ∧ y.toInt = 12 := by
+  obtain ⟨v, env', st', hrun, hcells⟩ := of_cellInts mkT_ref
+  obtain ⟨g', h', a', CT, n', hsteps, hr⟩ := ref_program_fn_compiled_partial stdNames_ok 5 [[]] {} mkT_ok hrun
+  have hlen : st'.cells.length = 5 := by simpa using congrArg List.length hcells
+  have hn' : n' = 5 := by rw [← hr.inv.cellsLen]; exact hlen
+  subst hn'
+  have key : ∀ (j : Nat) (i : Int), j < 5 → (st'.cells.map intOf)[j]? = some (some i) → ∃ x : Int64, g'[j]? = some (.int x) ∧ x.toInt = i := by
+    intro j i hj hi
+    obtain ⟨v0, w0, h1, h2, h3⟩ := hr.inv.cells j hj
+    rw [List.getElem?_map, h1] at hi
+    simp only [Option.map_some, Option.some.injEq] at hi
+    obtain ⟨x, rfl, hx⟩ := int_of_intOf hi
+    rcases h3 with ⟨-, rfl⟩ | ⟨_, _, _, h4, -, -⟩
+    · exact ⟨x, h2, hx⟩
+    · cases h4
+  obtain ⟨x, hx1, hx2⟩ := key 3 11 (by omega) (by rw [hcells]; rfl)
+  obtain ⟨y, hy1, hy2⟩ := key 4 12 (by omega) (by rw [hcells]; rfl)
+  exact ⟨g', h', a', x, y, hsteps, hx1, hx2, hy1, hy2⟩
+
+/-- the recogniser reads the embedding of the program back -/
+example : (Core.Fn.ofTops 60 ⟨0, [], []⟩ 0 (toTops stdNames mkT)).map (·.1) = some mkT := by rfl
+
+/-! ### a loop with a labelled `break` and a `continue` inside a function, locals, `return` -/
+
+/-- ```
+fn sum(n) { let s = 0; let i = 0;
+  outer: while true { if i >= n { break outer; } else {}  s = s + i; i = i + 1; continue; }
+  return s; }
+let r = sum(4);
+``` -/
+def sumD : FDecl := ⟨1, 3, [
+  .letL 1 1 (.lit 1 (.int 0)), .letL 1 2 (.lit 1 (.int 0)),
+  .whileS 1 (some "outer") (.tru 1) [
+    .ifS 1 1 (.bin 1 .greaterEq (.lget 1 2) (.lget 1 0)) [.breakS 1 (some "outer")] [],
+    .expr 1 (.lset 1 1 (.bin 1 .add (.lget 1 1) (.lget 1 2))),
+    .expr 1 (.lset 1 2 (.bin 1 .add (.lget 1 2) (.lit 1 (.int 1)))),
+    .continueS 1 none],
+  .ret 1 (.lget 1 1)], 1⟩
+
+def sumT : List FTop := [
+  .fnDef 1 0 (Core.Fn.fnTop 0 sumD).1 (Core.Fn.fnTop 0 sumD).2 sumD,
+  .stmt (.letG 1 1 (.call 1 (.gget 1 0) (.cons (.lit 1 (.int 4)) .nil)))]
+
+theorem sumT_ok' (Φ : FnDef → Option FDecl) (h1 : Φ (mkFd (Core.Fn.fnTop 0 sumD).1 (Core.Fn.fnTop 0 sumD).2 sumD) = some sumD) :
+    okTop stdNames Φ 2 0 sumT = true := by
+  simp only [sumT, sumD] at h1 ⊢
+  simp [okTop, okP, okS, okE, okArgs, lastOK, paramVis, fnCtx, topCtx, visAfter, h1]
+
+theorem sumT_ok : okTop stdNames (Core.Fn.phiT sumT) 2 0 sumT = true := sumT_ok' _ (by rfl)
+
+theorem sumT_ref : cellInts (run (evalStmts 80 [[]] (toTops stdNames sumT) .null) {}) = some [none, some 6] := by
+  decide +kernel
+
+example : ∃ (k : Nat) (g' : List Val) (h' : List (List Val)) (a' : Heap) (x : Int64),
+    Core.Fn.evalT (Core.Fn.phiT sumT) k [.null, .null] [[]] {} sumT = some (g', h', a') ∧ g'[1]? = some (.int x) ∧ x.toInt = 6 := by
+  obtain ⟨v, env', st', hrun, hcells⟩ := of_cellInts sumT_ref
+  obtain ⟨k, g', h', a', CT, n', hev, hr⟩ := ref_program_fn_partial stdNames_ok 2 [[]] {} sumT_ok hrun
+  have hlen : st'.cells.length = 2 := by simpa using congrArg List.length hcells
+  have hn' : n' = 2 := by rw [← hr.inv.cellsLen]; exact hlen
+  subst hn'
+  obtain ⟨v0, w0, h1, h2, h3⟩ := hr.inv.cells 1 (by omega)
+  have hi : (st'.cells.map intOf)[1]? = some (some 6) := by rw [hcells]; rfl
+  rw [List.getElem?_map, h1] at hi
+  simp only [Option.map_some, Option.some.injEq] at hi
+  obtain ⟨x, rfl, hx⟩ := int_of_intOf hi
+  rcases h3 with ⟨-, rfl⟩ | ⟨_, _, _, h4, -, -⟩
+  · exact ⟨k, g', h', a', x, hev, h2, hx⟩
+  · cases h4
+
+example : (Core.Fn.ofTops 60 ⟨0, [], []⟩ 0 (toTops stdNames sumT)).map (·.1) = some sumT := by rfl
+
+/-- reads integer `i` at global `j` off the relation between the final configurations -/
+theorem TopR.int_at {N : Names} {Φ : FnDef → Option FDecl} {G n : Nat} {base : Env} {CT : CTab} {st : St} {g : List Val} {h : List (List Val)} {a : Heap}
+    (hr : TopR N Φ G n base CT st g h a) {cs : List (Option Int)} (hcells : st.cells.map intOf = cs) {j : Nat} {i : Int}
+    (hj : cs[j]? = some (some i)) : ∃ x : Int64, g[j]? = some (.int x) ∧ x.toInt = i := by
+  subst hcells
+  have hjn : j < n := by
+    rw [← hr.inv.cellsLen]
+    rcases Nat.lt_or_ge j st.cells.length with h1 | h1
+    · exact h1
+    · rw [List.getElem?_eq_none (by simpa using h1)] at hj; cases hj
+  obtain ⟨v0, w0, h1, h2, h3⟩ := hr.inv.cells j hjn
+  rw [List.getElem?_map, h1] at hj
+  simp only [Option.map_some, Option.some.injEq] at hj
+  obtain ⟨x, rfl, hx⟩ := int_of_intOf hj
+  rcases h3 with ⟨-, rfl⟩ | ⟨_, _, _, h4, -, -⟩
+  · exact ⟨x, h2, hx⟩
+  · cases h4
+
+/-! ### a capture chain: the innermost function reads `a` through the closure in between -/
+
+def in3Body : List FStmt := [.expr 1 (.bin 1 .add (.bin 1 .add (.fget 1 0) (.fget 1 1)) (.lget 1 0))]
+def in3D : FDecl := ⟨1, 1, in3Body, 1⟩
+def in3Lit : FExpr := .mkclos 1 (Core.Fn.fnTop 0 in3D).1 (Core.Fn.fnTop 0 in3D).2 1 1 in3Body [.free 0, .loc 0]
+def in2Body : List FStmt := [.ret 1 in3Lit]
+def in2D : FDecl := ⟨1, 1, in2Body, 1⟩
+def in2Lit : FExpr := .mkclos 1 (Core.Fn.fnTop 0 in2D).1 (Core.Fn.fnTop 0 in2D).2 1 1 in2Body [.loc 0]
+def mk3D : FDecl := ⟨1, 1, [.ret 1 in2Lit], 1⟩
+
+/-- ```
+fn mk3(a) { return fn(b) { return fn(c) { a + b + c }; }; }
+let f = mk3(1); let g = f(2); let x = g(3);
+``` -/
+def mk3T : List FTop := [
+  .fnDef 1 0 (Core.Fn.fnTop 0 mk3D).1 (Core.Fn.fnTop 0 mk3D).2 mk3D,
+  .stmt (.letG 1 1 (.call 1 (.gget 1 0) (.cons (.lit 1 (.int 1)) .nil))),
+  .stmt (.letG 1 2 (.call 1 (.gget 1 1) (.cons (.lit 1 (.int 2)) .nil))),
+  .stmt (.letG 1 3 (.call 1 (.gget 1 2) (.cons (.lit 1 (.int 3)) .nil)))]
+
+theorem mk3T_ok' (Φ : FnDef → Option FDecl)
+    (h1 : Φ (mkFd (Core.Fn.fnTop 0 mk3D).1 (Core.Fn.fnTop 0 mk3D).2 mk3D) = some mk3D)
+    (h2 : Φ (mkFd (Core.Fn.fnTop 0 in2D).1 (Core.Fn.fnTop 0 in2D).2 in2D) = some in2D)
+    (h3 : Φ (mkFd (Core.Fn.fnTop 0 in3D).1 (Core.Fn.fnTop 0 in3D).2 in3D) = some in3D) :
+    okTop stdNames Φ 4 0 mk3T = true := by
+  simp only [mk3T, mk3D, in2Lit, in2D, in2Body, in3Lit, in3D, in3Body] at h1 h2 h3 ⊢
+  simp [okTop, okP, okS, okE, okArgs, okCap, lastOK, paramVis, fnCtx, topCtx, visAfter, capName, h1, h2, h3]
+
+theorem mk3T_ok : okTop stdNames (Core.Fn.phiT mk3T) 4 0 mk3T = true := mk3T_ok' _ (by rfl) (by rfl) (by rfl)
+
+theorem mk3T_ref : cellInts (run (evalStmts 60 [[]] (toTops stdNames mk3T) .null) {}) = some [none, none, none, some 6] := by
+  decide +kernel
+
+example : ∃ (k : Nat) (g' : List Val) (h' : List (List Val)) (a' : Heap) (x : Int64),
+    Core.Fn.evalT (Core.Fn.phiT mk3T) k (List.replicate 4 .null) [[]] {} mk3T = some (g', h', a') ∧ g'[3]? = some (.int x) ∧ x.toInt = 6 := by
+  obtain ⟨v, env', st', hrun, hcells⟩ := of_cellInts mk3T_ref
+  obtain ⟨k, g', h', a', CT, n', hev, hr⟩ := ref_program_fn_partial stdNames_ok 4 [[]] {} mk3T_ok hrun
+  obtain ⟨x, hx1, hx2⟩ := hr.int_at hcells (j := 3) (i := 6) rfl
+  exact ⟨k, g', h', a', x, hev, hx1, hx2⟩
+
+example : (Core.Fn.ofTops 60 ⟨0, [], []⟩ 0 (toTops stdNames mk3T)).map (·.1) = some mk3T := by rfl
+
+/-! ### `match` with a literal, a range and the default arm inside a function -/
+
+def clsD : FDecl := ⟨1, 1, [.expr 1 (.matchE 1 (.lget 1 0)
+  (.cons 1 [.lit 1 (.int 0)] (.lit 1 (.int 10))
+    (.cons 1 [.range 1 true (.int 1) (.int 5)] (.lit 1 (.int 20))
+      (.last 1 1 (.lit 1 (.int 30))))))], 1⟩
+
+/-- ```
+fn cls(n) { match n { 0 => 10, 1..=5 => 20, _ => 30 } }
+let a = cls(0); let b = cls(3); let c = cls(9);
+``` -/
+def clsT : List FTop := [
+  .fnDef 1 0 (Core.Fn.fnTop 0 clsD).1 (Core.Fn.fnTop 0 clsD).2 clsD,
+  .stmt (.letG 1 1 (.call 1 (.gget 1 0) (.cons (.lit 1 (.int 0)) .nil))),
+  .stmt (.letG 1 2 (.call 1 (.gget 1 0) (.cons (.lit 1 (.int 3)) .nil))),
+  .stmt (.letG 1 3 (.call 1 (.gget 1 0) (.cons (.lit 1 (.int 9)) .nil)))]
+
+theorem clsT_ok' (Φ : FnDef → Option FDecl) (h1 : Φ (mkFd (Core.Fn.fnTop 0 clsD).1 (Core.Fn.fnTop 0 clsD).2 clsD) = some clsD) :
+    okTop stdNames Φ 4 0 clsT = true := by
+  simp only [clsT, clsD] at h1 ⊢
+  simp [okTop, okP, okS, okE, okArgs, okArms, lastOK, paramVis, fnCtx, topCtx, visAfter, h1]
+
+theorem clsT_ok : okTop stdNames (Core.Fn.phiT clsT) 4 0 clsT = true := clsT_ok' _ (by rfl)
+
+theorem clsT_ref : cellInts (run (evalStmts 60 [[]] (toTops stdNames clsT) .null) {}) = some [none, some 10, some 20, some 30] := by
+  decide +kernel
+
+example : ∃ (k : Nat) (g' : List Val) (h' : List (List Val)) (a' : Heap) (x y z : Int64),
+    Core.Fn.evalT (Core.Fn.phiT clsT) k (List.replicate 4 .null) [[]] {} clsT = some (g', h', a') ∧
+    g'[1]? = some (.int x) ∧ x.toInt = 10 ∧ g'[2]? = some (.int y) ∧ y.toInt = 20 ∧ g'[3]? = some (.int z) ∧ z.toInt = 30 := by
+  obtain ⟨v, env', st', hrun, hcells⟩ := of_cellInts clsT_ref
+  obtain ⟨k, g', h', a', CT, n', hev, hr⟩ := ref_program_fn_partial stdNames_ok 4 [[]] {} clsT_ok hrun
+  obtain ⟨x, hx1, hx2⟩ := hr.int_at hcells (j := 1) (i := 10) rfl
+  obtain ⟨y, hy1, hy2⟩ := hr.int_at hcells (j := 2) (i := 20) rfl
+  obtain ⟨z, hz1, hz2⟩ := hr.int_at hcells (j := 3) (i := 30) rfl
+  exact ⟨k, g', h', a', x, y, z, hev, hx1, hx2, hy1, hy2, hz1, hz2⟩
+
 end Examples
 
 #print axioms ref_call_fn_partial
@@ -2927,6 +3506,9 @@ end Examples
 #print axioms ref_expr_fn_error_partial
 #print axioms ref_stmts_fn_partial
 #print axioms ref_stmts_fn_error_partial
+#print axioms ref_program_fn_partial
+#print axioms ref_program_fn_error_partial
+#print axioms ref_program_fn_compiled_partial
 #print axioms all_ok
 #print axioms stdNames_ok
 
